@@ -151,6 +151,8 @@ CANONICAL = [
     ("empty-macro-call", 'macro m() { } parser { m(); }', []),
     ("empty-macro-call", 'out int n; macro m() { } parser { "a"; if n == 1 { m(); } else { m(); } }', []),
     ("case-only-else", 'parser { case { else -> { } } }', []),
+    ("ambiguity-on-end-codepoints", 'parser { optional { end; "a"; } end; "b"; }', ["-feof-support", "-fcodepoints-in-errors"]),
+    ("ambiguity-on-end-codepoints", 'parser { optional { "ab"; } /a+/; "b"; }', ["-fcodepoints-in-errors"]),
     ("if-inside-optional", 'out int n; parser { optional { if n == 1 { "q"; } } "z"; }', []),
     ("int-unsigned-odd-size", 'out int{unsigned, size 3} x; parser { "a"; }', []),
     ("empty-literal-in-case", 'parser { case { "" -> { } "x" -> { } } }', []),
